@@ -137,6 +137,9 @@ func (e cfError) Error() string {
 type cfErrors []cfError
 
 func (e cfErrors) Error() string {
+	if len(e) == 0 {
+		return "request failed without an error message"
+	}
 	errs := make([]error, 0, len(e))
 	for _, ee := range e {
 		errs = append(errs, ee)
